@@ -301,6 +301,9 @@ func (e *Engine) resolveFrame(c *Contract, vars map[string]SVal, pkg *types.Pack
 			}
 		case m == "syncmaps":
 			fi.keys["SM:dom"], fi.keys["SM:tag"], fi.keys["SM:val"] = true, true, true
+		case m == "lrucaches":
+			lruDeclare()
+			fi.keys["LRU:dom"], fi.keys["LRU:tag"], fi.keys["LRU:val"] = true, true, true
 		case strings.HasPrefix(m, "* except "):
 			// whole Go heap except the fields of one struct type: those get frame obligations
 			fi.all = true
